@@ -186,6 +186,21 @@ CLAIMS = {
    note=NOTE + "C12: genuine defect found and fixed (record-array catalogues without theta column raised ValueError).",
    technique="Lean 4 theorems (decidable table facts, completeness by cases over the 7 types, support lemmas) on regenerated constants + entry-wise prior correspondence + photutils oracle",
    design="7/C12"),
+ "C05": dict(
+   text=("Proof (ℝ) on the model of FitSingle/FitMulti.build_model: the joint log-density is exactly the sum of one prior term per prior entry (unit-scale "
+         "base under TransformReparam), the loss's own nuisance priors and the per-pixel likelihood of the unmasked pixels — nothing else; in the user-facing "
+         "parameters x_i = loc_i + scale_i·z_i it equals Σ log prior_i(x_i) + log-likelihood(render(x)+sky(x)) + the constant Σ log scale_i (induction over "
+         "the entries with the C11 Jacobian lemma), i.e. the posterior over the user-facing parameters is prior × likelihood; the likelihood depends on the "
+         "latents only through the exposed dictionary, each entry exposed under its own name; rms enters as σ (C07), masked pixels drop out (C06); the latent "
+         "sites are exactly name_base for the prior's entries followed by the loss's nuisance latents, there is exactly one likelihood site, the model image is "
+         "recorded under model+suffix; suffix stripping is the identity for the empty suffix, a decidable predicate states for which suffixes it recovers all "
+         "parameter names (safe: _a, _7, _F444W, _Band_0; counter-example _e). Tie: real handlers.trace of build_model() with substituted latents over "
+         "profiles/catalogues × skies × ten losses × three renderers × suffixes × masks: site set (names, kinds) exact; per-entry base log-density and exposed "
+         "value; per-pixel likelihood recomputed by the Lean loss model from the real model image; nuisance priors; total vs numpyro log_density. Oracle: "
+         "independent scipy recomputation per latent site and per observed pixel from the real renderer output + closed-form sky (1e-4 abs + 1e-5 rel)."),
+   note=NOTE + "C05: numpyro handler semantics assumed and validated per site; the rendered image is taken from the real renderer (render layer tied separately).",
+   technique="Lean 4 theorems (factorisation of the joint density, change of variables by induction over entries, site-list lemmas) + full trace correspondence (sites, prior terms, likelihood terms, total) + scipy oracle",
+   design="7/C05"),
 }
 
 checks, na = [], []
